@@ -357,3 +357,122 @@ Proof.
       replace (N.max (o + (p + tlen)) (L * tl)) with (N.max (o + p) (L * tl)) by lia.
       destruct (padAll || (N.min (o + k) ((L + 1) * tl) <=? L * tl + rlen (T L))); f_equal; lia.
 Qed.
+
+Lemma blen_bounds : forall tl T n, 0 < tl -> wf tl T n ->
+  blen tl T n <= n * tl /\ (0 < n -> (n - 1) * tl < blen tl T n) /\ (n = 0 -> blen tl T n = 0).
+Proof.
+  intros tl T n Htl (W1 & W2 & W3). unfold blen. destruct (N.eqb_spec n 0).
+  - subst. lia.
+  - specialize (W1 (n - 1)). specialize (W3 ltac:(lia)). nia.
+Qed.
+
+Lemma blen_mod : forall tl T n, 0 < tl -> wf tl T n -> 0 < n ->
+  (blen tl T n mod tl =? 0) = (rlen (T (n - 1)) =? tl).
+Proof.
+  intros tl T n Htl (W1 & W2 & W3) Hn. unfold blen. destruct (N.eqb_spec n 0); [lia|].
+  specialize (W1 (n - 1)). specialize (W3 Hn).
+  destruct (N.eqb_spec (rlen (T (n - 1))) tl) as [E|E].
+  - rewrite E. replace ((n - 1) * tl + tl) with (n * tl) by nia. rewrite N.mod_mul by lia. reflexivity.
+  - destruct (div_mod_tract tl ((n - 1) * tl + rlen (T (n - 1))) (n - 1) Htl) as [_ Hm]; try lia.
+    rewrite Hm. apply N.eqb_neq. lia.
+Qed.
+
+(* the F16 input class, on the stored blob: last tract exactly full, the read starts inside and runs past the end *)
+Definition full_tail_in (tl len o k : N) : bool :=
+  (0 <? len) && (len mod tl =? 0) && (o <? len) && (len <? o + k).
+
+Lemma read_at_spec : forall v tl st off k r st',
+  0 < tl -> wf tl (tracts st) (ntr st) -> cache_ok st -> (0 <= off)%Z -> 0 < k ->
+  read_at v tl st off k = (r, st') ->
+  let o := Z.to_N off in let len := blen tl (tracts st) (ntr st) in
+  fst (fst r) = N.min k (len - o) /\
+  rlen (snd r) = fst (fst r) /\
+  (forall y, y < fst (fst r) -> rget (snd r) y = tget tl (tracts st) (o + y)) /\
+  snd (fst r) = (if len <? o + k then (if negb (fix16 v) && full_tail_in tl len o k then E_OK else E_EOF) else E_OK) /\
+  tracts st' = tracts st /\ ntr st' = ntr st /\ same_handle st st' /\ cache_ok st'.
+Proof.
+  intros v tl st off k r st' Htl Hwf Hc Hoff Hk H o len. unfold read_at in H.
+  destruct (Z.ltb_spec off 0) as [Ho0|Ho0]; [lia|].
+  destruct (N.eqb_spec k 0) as [Hk0|Hk0]; [lia|].
+  fold o in H. set (start := o / tl) in *. set (e := (o + k + tl - 1) / tl) in *.
+  set (n := ntr st) in *.
+  destruct (tract_of tl o Htl) as (S1 & S2 & _). fold start in S1, S2.
+  destruct (ceil_tract tl (o + k) Htl ltac:(lia)) as (E1 & E2 & E3).
+  replace ((o + k + tl - 1) / tl) with e in * by (unfold e; f_equal; lia).
+  assert (Hse : start < e) by nia.
+  destruct (blen_bounds tl (tracts st) n Htl Hwf) as (B1 & B2 & B3). fold len in B1, B2, B3.
+  destruct (get_tracts st start (e + 1)) as [[f c] st0] eqn:Hg.
+  destruct (get_tracts_spec st start (e + 1) f c st0 Hc ltac:(lia) Hg) as (Gf & Gc & G1 & G2 & G3 & G4 & G5 & G6 & G7).
+  fold n in Gf, Gc.
+  assert (Hsame : same_handle st st0) by (unfold same_handle; tauto).
+  destruct (N.eqb_spec c 0) as [Hc0|Hc0].
+  - (* nothing returned: the read starts beyond the last tract *)
+    inversion H; subst r st'. clear H. cbn [fst snd rlen].
+    assert (n <= start) by lia.
+    assert (n * tl <= start * tl) by (apply N.mul_le_mono_r; lia).
+    unfold full_tail_in. destruct (N.ltb_spec len (o + k)); [|lia].
+    destruct (N.ltb_spec o len); [lia|]. rewrite !andb_false_r, andb_false_l.
+    repeat split; auto; try lia. intros; lia.
+  - assert (Hsn : start < n) by lia. assert (Hn0 : 0 < n) by lia. specialize (B2 Hn0).
+    assert (f = start) by lia. subst f. rewrite G1 in H.
+    assert (Hlen : len = (n - 1) * tl + rlen (tracts st (n - 1))).
+    { unfold len, blen. fold n. destruct (N.eqb_spec n 0); [lia|reflexivity]. }
+    destruct (N.eqb_spec c (e + 1 - start)) as [Hpad|Hpad].
+    + (* the look-ahead tract exists: every tract of the range is padded *)
+      assert (He : e + 1 <= n) by lia.
+      pose proof (read_tracts_spec tl (tracts st) k o true Htl (N.to_nat (c - 1)) start 0 0) as R.
+      cbv zeta in R. rewrite N2Nat.id, N.add_0_r in R.
+      replace (start + (c - 1) - 1) with (e - 1) in R by lia.
+      replace ((e - 1 + 1) * tl) with (e * tl) in R by (f_equal; lia).
+      destruct R as (R1 & R2 & R3); try lia.
+      { replace (e - 1) with (start + (c - 1) - 1) by lia. lia. }
+      rewrite R3 in H. cbn [orb] in H.
+      assert (e * tl <= (n - 1) * tl) by (apply N.mul_le_mono_r; lia).
+      replace (N.min (o + k) (e * tl)) with (o + k) in * by lia.
+      replace (0 + (o + k - o)) with k in H by lia.
+      rewrite N.ltb_irrefl, andb_false_r in H.
+      inversion H; subst r st'. clear H. cbn [fst snd].
+      destruct (N.ltb_spec len (o + k)); [lia|].
+      split; [lia|]. split; [rewrite rlen_rtake; lia|]. split.
+      * intros y Hy. rewrite rget_rtake. destruct (N.ltb_spec y k); [|lia]. rewrite R2 by lia. f_equal. lia.
+      * repeat split; auto.
+    + (* the range includes the blob's last tract *)
+      assert (He : n <= e) by lia. assert (c = n - start) by lia. subst c.
+      pose proof (read_tracts_spec tl (tracts st) k o false Htl (N.to_nat (n - start)) start 0 0) as R.
+      cbv zeta in R. rewrite N2Nat.id, N.add_0_r in R.
+      replace (start + (n - start) - 1) with (n - 1) in R by lia.
+      replace ((n - 1 + 1) * tl) with (n * tl) in R by (f_equal; lia).
+      destruct R as (R1 & R2 & R3); try lia.
+      { assert ((n - 1) * tl <= (e - 1) * tl) by (apply N.mul_le_mono_r; lia). lia. }
+      rewrite R3 in H. cbn [orb] in H. rewrite <- Hlen in *.
+      pose proof (blen_mod tl (tracts st) n Htl Hwf Hn0) as Hmod. fold len in Hmod.
+      destruct Hwf as (W1 & W2 & W3). specialize (W1 (n - 1)).
+      assert (Hsn' : (start + 1) * tl <= n * tl) by (apply N.mul_le_mono_r; lia).
+      unfold full_tail_in. rewrite Hmod.
+      destruct (N.leb_spec (N.min (o + k) (n * tl)) len) as [Hge|Hlt].
+      * (* no short tractserver read *)
+        change (E_OK =? E_OK) with true in H. rewrite andb_true_r in H.
+        inversion H; subst r st'. clear H. cbn [fst snd].
+        split; [lia|]. split; [rewrite rlen_rtake; lia|]. split.
+        { intros y Hy. rewrite rget_rtake.
+          destruct (N.ltb_spec y (0 + (N.min (o + k) (n * tl) - o))); [|lia]. rewrite R2 by lia. f_equal. lia. }
+        split; [|repeat split; auto].
+        destruct (N.ltb_spec len (o + k)).
+        { (* F16: the last tract is full and the range runs past it *)
+          assert (rlen (tracts st (n - 1)) = tl) by lia.
+          destruct (N.ltb_spec 0 len), (N.eqb_spec (rlen (tracts st (n - 1))) tl), (N.ltb_spec o len); try lia.
+          cbn [andb]. rewrite andb_true_r.
+          destruct (N.ltb_spec (0 + (N.min (o + k) (n * tl) - o)) k); [|lia].
+          destruct (fix16 v); reflexivity. }
+        { destruct (N.ltb_spec (0 + (N.min (o + k) (n * tl) - o)) k); [lia|]. rewrite andb_false_r. reflexivity. }
+      * (* the last tract is short inside the range: EOF from the tractserver *)
+        change (E_EOF =? E_OK) with false in H. rewrite andb_false_r, andb_false_l in H.
+        inversion H; subst r st'. clear H. cbn [fst snd].
+        split; [lia|]. split; [rewrite rlen_rtake; lia|]. split.
+        { intros y Hy. rewrite rget_rtake.
+          destruct (N.ltb_spec y (0 + (N.max (N.max o ((n - 1) * tl)) len - o))); [|lia]. rewrite R2 by lia. f_equal. lia. }
+        split; [|repeat split; auto].
+        destruct (N.ltb_spec len (o + k)); [|lia].
+        destruct (N.eqb_spec (rlen (tracts st (n - 1))) tl); [lia|].
+        rewrite andb_false_r, andb_false_l, andb_false_r. reflexivity.
+Qed.
